@@ -6,7 +6,7 @@ VERIF = os.path.dirname(os.path.dirname(os.path.abspath(__file__)))
 only = sys.argv[1:]
 pids = ["C%02d" % i for i in range(1, 21)]
 save = tempfile.mkdtemp(prefix="evid.")
-subprocess.run(["cp", "-a", VERIF + "/evidence/.", save + "/"])
+os.environ["VERIF_EVIDENCE"] = save          # evidence / replays of runs on a changed tree go to a scratch directory
 rows = []
 for d in sorted(glob.glob(VERIF + "/seeded/harmless/*")):
     name = os.path.basename(d)
@@ -36,11 +36,10 @@ for d in sorted(glob.glob(VERIF + "/seeded/harmless/*")):
                 alarms.append("%s rc=%d %s" % (pid, p.returncode, what or p.stdout[-300:]))
     finally:
         subprocess.run(["git", "-C", "/repo", "checkout", "--", "."])
-        shutil.rmtree(VERIF + "/evidence/replays", ignore_errors=True)
+        shutil.rmtree(save + "/replays", ignore_errors=True)
     meta = json.load(open(d + "/meta.json"))
     rows.append((name, "quiet" if not alarms else "ALARM", " ; ".join(alarms)))
     print(rows[-1]); sys.stdout.flush()
-subprocess.run(["cp", "-a", save + "/.", VERIF + "/evidence/"])
 shutil.rmtree(save, ignore_errors=True)
 if not only:
     with open(VERIF + "/seeded/HARMLESS.md", "w") as fh:
